@@ -63,6 +63,13 @@ after the refusal and again after compute_propagator_arrays() + preprocess(same 
 Class {"relation": "refused_request_changes_nothing", "op": <member>, "what": ...}; the responsible member is found by
 re-running prefixes.  A member that the tree under test accepts is counted, not flagged.
 
+Ordered configuration (fourth part): slice-thickness sequences for 3, 4 and 5 slices in every order pattern of distinct values
+(all permutations of 2 and 3 values; ascending, descending, peak, valley, two zig-zags of 4) and with repeats in every position,
+as list / tuple / ndarray / tensor / scalar, installed at construction, by an object-model swap and through both
+slice_thicknesses setters followed by the recomputation calls; pattern order (data and positions permuted consistently, positions
+through the public `dset.scan_positions_px` setter); probe_params key order.  Class {"relation":
+"ordered_configuration_is_used_in_order", "sequence": ..., "what": ...}.
+
 Stated limit. `com_fit_function="constant"` shifts every pattern by the data-dependent mean centre of mass
 with sinc interpolation; "zero to numerical precision" is only defined when that is an integer pixel.  It
 is provably the detector centre for vacuum data of a centro-symmetric aperture that stays below Nyquist, so
@@ -100,7 +107,9 @@ CLAIM = (
     "to its own weight. On one instance, after every history of up to 2 (quick) / 3 (thorough) reconfiguration events, the "
     "prediction equals the simulator at the final configuration (no stale propagators, probes or targets); about 86 invalid requests "
     "to the public setters / configuration calls, alone and combined with each other and with the valid events, are refused without "
-    "changing anything the forward model uses, also after derived state is rebuilt. Exploration is the right level: the property quantifies over configurations and "
+    "changing anything the forward model uses, also after derived state is rebuilt; slice-thickness sequences in every order pattern "
+    "(distinct and repeated values, five container kinds, four installation routes), permuted pattern orders and probe_params key "
+    "orders are used in the order given. Exploration is the right level: the property quantifies over configurations and "
     "batch schedules, which are enumerated completely; array contents are seeded alphabet members."
 )
 NOTE = (
@@ -118,7 +127,9 @@ RULE = (
     "Reconfiguration part: every sequence of length 0..d over the 8-event alphabet on each base configuration, one fresh "
     "instance per sequence, reference model stepped alongside, final state judged; outcomes are distinct final configurations. "
     "Refused requests: every member alone, pairs over the core members and with the valid events (thorough: plus triples over six "
-    "core members and the valid events), on 3 (quick) / 4 (thorough) base configurations incl. a single-slice one."
+    "core members and the valid events), on 3 (quick) / 4 (thorough) base configurations incl. a single-slice one. Ordered "
+    "configuration: sequences x routes x bases (quick: list container plus all containers for two sequences; thorough: full product), "
+    "6 pattern orders x {1,3} slices, 6 probe_params key orders."
 )
 
 # ----------------------------------------------------------------------------- tolerances
